@@ -196,6 +196,7 @@ def mk_package2(it, hint='pkg', may_raise=False, res_may_raise=False):
             nm = name_at(it2, i)
             return resource_desc(it2, '%s.dat' % hint, name=nm)
         seq.at = at
+        seq.length = nres
         lst = SymList(seq, [])
         lst.parent = desc
         return lst
@@ -308,7 +309,7 @@ def dispatch_symbolic(vc, relpath, qualpath, dotted, maker_name, maker_args, mat
                     check(it, 'one-output-per-resource[%s]' % tag, True)
                     y = ys[0]
                     if mode == 'unselected':
-                        check(it, 'unselected-same-object[%s]' % tag, y.obj is r)
+                        check(it, 'unselected-same-object[%s]' % tag, same_stream(it, y.obj, r))
                         check(it, 'unselected-rows-not-pulled[%s]' % tag, r.stream.drained is False and
                               not [e for e in events if e.kind in ('Drain', 'Pull', 'YieldFrom') and getattr(e, 'src', None) in (r, r.stream)])
                         check(it, 'unselected-descriptor-untouched[%s]' % tag,
@@ -361,6 +362,31 @@ def gen_of(names, arg_ok=None):
     return ok
 
 
+def same_stream(it, y, r):
+    """pass-through of a resource stream: True when the yielded object IS the input ResourceWrapper.  A NEW lazy wrapper around
+    it (generator, generator expression, map) may well be equivalent, but this contract has no obligation for wrapped streams:
+    the function is then left UNDECIDED (never reported as a violation).  Anything else -- another resource, None, a list --
+    is not the same stream."""
+    from pyvc.api import GenObj, Unsupported
+    from pyvc import lib
+    if y is r:
+        return True
+    if isinstance(y, (GenObj, lib.GenExp, lib.MappedStream)):
+        raise Unsupported('pass-through stream is re-wrapped in a new lazy object (%r): equivalence of wrapped streams is outside '
+                          'this contract' % (y,))
+    return False
+
+
+def same_row_object(it, y, row):
+    """True when the yielded row IS the input row object; a different dict may be an equal copy, which this obligation cannot
+    tell from a wrong row without a content obligation -> UNDECIDED, not a violation"""
+    from pyvc.api import Unsupported
+    if y is row:
+        return True
+    raise Unsupported('a row is passed on as a different object: this contract states its content obligations on the input '
+                      'object only')
+
+
 def row_transducer(vc, relpath, qualpath, dotted, attr_path, spec_src, spec_fn, mk_args, loop_label, min_paths=3,
                    identity=None, spec_free=None, get_fn=None, tag='', inline=None, loops=None, rows_arg=None):
     """proof that a real generator refines a stateless row transducer:
@@ -395,10 +421,11 @@ def row_transducer(vc, relpath, qualpath, dotted, attr_path, spec_src, spec_fn, 
                 return
             check(it, 'step%s' % tag, yields_match(it, events, exp.value))
             ys = yields_of(events)
-            if identity is True:
-                check(it, 'yields-the-input-row-object%s' % tag, all(y.obj is elem for y in ys))
-            elif identity is False:
-                check(it, 'yields-fresh-objects%s' % tag, all(y.obj is not elem for y in ys))
+            # (object identity of the yielded rows is not part of any property: content is what `step` compares.  What does
+            # matter is aliasing between the rows of ONE step: a consumer that keeps them must not see one overwrite another)
+            if identity is False:
+                objs = [id(y.obj) for y in ys]
+                check(it, 'rows-of-one-step-are-distinct-objects%s' % tag, len(set(objs)) == len(objs))
             check(it, 'no-buffering%s' % tag, not [e for e in events if e.kind == 'Drain'])
             cover(it, 'iter-reachable%s' % tag)
         it.loops[loop_label] = LoopSpec(at_start=at_start, at_end=at_end,
@@ -445,7 +472,7 @@ def search_loop(any_term, cond_of, tag, state_unchanged=None, inv=None, keep=())
     return LoopSpec(at_start=at_start, at_end=at_end, at_break=at_break, at_exit=at_exit, inv=inv, keep=keep)
 
 
-def havoc_mutable_scalars(it, inst):
+def havoc_mutable_scalars(it, inst, containers=False):
     """object-history quantification: instance attributes holding scalars that some method other than __init__ assigns
     (self.x = .. / self.x += ..) are replaced by arbitrary values of the same sort, so that a method contract holds for
     every earlier use of the object, not only for a freshly constructed one"""
@@ -472,7 +499,37 @@ def havoc_mutable_scalars(it, inst):
                     tgt = n.targets[0]
                 if isinstance(tgt, ast.Attribute) and isinstance(tgt.value, ast.Name) and tgt.value.id == 'self':
                     names.add(tgt.attr)
+    # containers held by the object that a method other than __init__ fills: their contents are unknown after an arbitrary
+    # history (lookups may hit -- with an arbitrary stored value -- or miss)
+    MUT = {'append', 'add', 'update', 'setdefault', 'pop', 'clear', 'extend', 'insert', 'remove', 'discard', 'popitem'}
+    cnames = set()
+    seen2 = set()
+    stack = [inst.cls]
+    while stack:
+        c = stack.pop()
+        if not isinstance(c, ClassV) or c.name in seen2:
+            continue
+        seen2.add(c.name)
+        stack.extend(c.bases)
+        for mname, m in c.methods.items():
+            if mname == '__init__' or not hasattr(m, 'node'):
+                continue
+            for n in ast.walk(m.node):
+                t = None
+                if isinstance(n, ast.Subscript) and isinstance(n.ctx, (ast.Store, ast.Del)):
+                    t = n.value
+                elif isinstance(n, ast.Call) and isinstance(n.func, ast.Attribute) and n.func.attr in MUT:
+                    t = n.func.value
+                if isinstance(t, ast.Attribute) and isinstance(t.value, ast.Name) and t.value.id == 'self':
+                    cnames.add(t.attr)
     out = []
+    if containers:
+        from pyvc.api import PyDict
+        for a in sorted(cnames):
+            v = inst.attrs.get(a)
+            if isinstance(v, PyDict) and not v.d:
+                v.history = it.fresh('hist_' + a, IntS)
+                out.append(a)
     for a in sorted(names):
         v = inst.attrs.get(a)
         if isinstance(v, bool):
